@@ -64,10 +64,11 @@ func sodSite(n int) string {
 		fn := fr.Function
 		if i := strings.Index(fn, "github.com/0xrawsec/sod."); i >= 0 {
 			s := fn[i+len("github.com/0xrawsec/sod."):]
-			if j := strings.LastIndex(s, "."); j >= 0 && strings.HasPrefix(s, "(") {
-				s = s[j+1:]
+			isShim := strings.Contains(strings.ToLower(s), "verif")
+			if j := strings.Index(s, ")."); j >= 0 && strings.HasPrefix(s, "(") {
+				s = s[j+2:]
 			}
-			if !strings.HasPrefix(strings.ToLower(s), "verif") && !strings.Contains(s, ".verif") {
+			if !isShim {
 				// strip closure suffixes
 				if j := strings.Index(s, ".func"); j > 0 {
 					s = s[:j]
